@@ -186,7 +186,7 @@ func main() {
 		all = append(all, results[i].obls...)
 	}
 	genS := time.Since(t0).Seconds() - loadS
-	solverTime, _ := Discharge(all, timeout, 16, *dump)
+	solverTime, _ := Discharge(all, timeout, dischargeWorkers(), *dump)
 
 	// known findings
 	var known []KnownFinding
